@@ -16,14 +16,15 @@ RULE = ("bounded-exhaustive bracket sequences: every sequence of N leaves from {
 ASSUMPTIONS = ["programs whose only issue is gates after a trailing unmatched prepare_all are not judged (statement ambiguous)",
                "termination of accepted programs is C08's clause: a step-budget overrun here is inconclusive for C12"]
 TIERS = {"quick": {"shards": 8, "budget_s": 120}, "thorough": {"shards": 16, "budget_s": 480}}
-REQUIRE = {"idle-gate-variants": 2000, "loop-count-overridden-programs": 1000, "object-assembled-programs": 2000, "ref-accept": 500, "ref-reject:measure-without-prepare": 100, "ref-reject:gate-outside-subcircuit": 100,
+REQUIRE = {"built-through-CircuitBuilder": 300, "idle-gate-variants": 2000, "loop-count-overridden-programs": 1000, "object-assembled-programs": 2000, "ref-accept": 500, "ref-reject:measure-without-prepare": 100, "ref-reject:gate-outside-subcircuit": 100,
            "ref-reject:measure-in-loop-closes-earlier-prepare": 50, "states-compared": 500}
 
 
 def judge(case):
     prog = case_prog(case)
     ov = dict(case.get("ov") or {})
-    st, s = X.setup(prog, ov or None, assemble=bool(case.get("assemble")))
+    asm = case.get("assemble")
+    st, s = X.setup(prog, ov or None, assemble=("builder", case.get("bseed", 0)) if asm == "builder" else bool(asm))
     if st != "ok":
         return st, [], None
     if case.get("order") == "ML":
@@ -154,7 +155,9 @@ def process(ctx, case, seen, minimise_budget=120):
         if seen[key] > 3:
             rec.count("unminimised-repeat:" + clause)
             continue
-        base = {"assemble": True} if case.get("assemble") else {}
+        base = {"assemble": case["assemble"]} if case.get("assemble") else {}
+        if case.get("assemble") == "builder":
+            base["bseed"] = case.get("bseed", 0)
         if case.get("ov"):
             base.update(ov=case["ov"], order=case.get("order"))
         small = minimise.minimise(prog, lambda p: clause in _clauses(dict(base, prog=p)), budget=minimise_budget) if minimise_budget else prog
@@ -163,7 +166,9 @@ def process(ctx, case, seen, minimise_budget=120):
         feats = shape_features(small)
         if base.get("ov"):
             feats = set(feats) | {"loop-count-overridden", "macros-expanded-first" if base.get("order") == "ML" else "lets-filled-first"}
-        if base.get("assemble"):
+        if base.get("assemble") == "builder":
+            feats = set(feats) | {"built-through-CircuitBuilder"}
+        elif base.get("assemble"):
             feats = set(feats) | {"assembled-from-core-objects"}
             if any(x[0] == "subcircuit_block" and any(y is not x and y[0] == "subcircuit_block" for y in sx.walk(x)) for x in sx.walk(small)):
                 feats.add("subcircuit-inside-subcircuit")
@@ -304,7 +309,11 @@ def shard(ctx):
             if prog is None:
                 continue
             rec.count("sampled-bracket")
-        process(ctx, {"prog": prog}, seen)
+        case = {"prog": prog}
+        if rng.random() < 0.35:
+            case.update(assemble="builder", bseed=rng.randrange(1 << 30))
+            rec.count("built-through-CircuitBuilder")
+        process(ctx, case, seen)
         if i <= 3:
             rec.sample({"text": sx.to_text(prog)})
     monitors.report_contracts(rec)
